@@ -3,6 +3,7 @@ package props
 import (
 	"encoding/json"
 	"fmt"
+	"strings"
 	"time"
 
 	"github.com/go-gts/gts"
@@ -16,6 +17,8 @@ import (
 type c05Case struct {
 	L   int    `json:"L"`
 	Loc string `json:"location"`
+	Key string `json:"key,omitempty"`
+	Res string `json:"residues,omitempty"` // optional explicit residues (IUPAC letters, both cases)
 }
 
 // mirrorSiteOffByOne is the deviation transform of the test-pinned
@@ -157,6 +160,14 @@ func c05Eval(c c05Case) (ok bool, sig, detail string) {
 	L := c.L
 	d0 := denOf(loc)
 	res := locdom.Seq(L)
+	key := "h0"
+	if c.Key != "" {
+		key = c.Key
+	}
+	if c.Res != "" {
+		return c05Residues(c, loc)
+	}
+	mk := func() gts.Sequence { return mkSeqKeys(res, []gts.Location{loc}, []string{key}) }
 
 	// (a) Location.Reverse mirrors the denotation
 	var rev gts.Location
@@ -204,9 +215,9 @@ func c05Eval(c c05Case) (ok bool, sig, detail string) {
 	// (c) sequence level Reverse / Complement
 	var sr, sc, src gts.Sequence
 	if p, msg := engine.Safely(func() {
-		sr = gts.Reverse(mkSeq(res, []gts.Location{loc}, "h"))
-		sc = gts.Complement(mkSeq(res, []gts.Location{loc}, "h"))
-		src = gts.Reverse(gts.Complement(mkSeq(res, []gts.Location{loc}, "h")))
+		sr = gts.Reverse(mk())
+		sc = gts.Complement(mk())
+		src = gts.Reverse(gts.Complement(mk()))
 	}); p {
 		return false, "panic", "gts.Reverse/Complement panics: " + msg
 	}
@@ -222,12 +233,12 @@ func c05Eval(c c05Case) (ok bool, sig, detail string) {
 	if string(sc.Bytes()) != string(wantC) {
 		return false, "complement-residues", fmt.Sprintf("Complement residues %q want %q", sc.Bytes(), wantC)
 	}
-	if f, cnt := findOnce(sr.Features(), "h0"); cnt != 1 || !propsEqual(f.Props, hostProps(0)) {
+	if f, cnt := findOnce(sr.Features(), key); cnt != 1 || !propsEqual(f.Props, hostProps(0)) {
 		return false, "reverse-feature", "gts.Reverse lost or altered the feature"
 	} else if d, ok2 := refmodel.Den(f.Loc); !ok2 || !d.Equal(obs) {
 		return false, "reverse-feature", fmt.Sprintf("gts.Reverse location %s differs from Location.Reverse %s", printLoc(f.Loc), printLoc(rev))
 	}
-	if f, cnt := findOnce(sc.Features(), "h0"); cnt != 1 || !propsEqual(f.Props, hostProps(0)) {
+	if f, cnt := findOnce(sc.Features(), key); cnt != 1 || !propsEqual(f.Props, hostProps(0)) {
 		return false, "complement-feature", "gts.Complement lost or altered the feature"
 	} else if d, ok2 := refmodel.Den(f.Loc); !ok2 || !d.Equal(d0.MapComplement()) {
 		return false, "complement-feature", fmt.Sprintf("gts.Complement location %s", printLoc(f.Loc))
@@ -239,7 +250,7 @@ func c05Eval(c c05Case) (ok bool, sig, detail string) {
 		return false, "residue-involution", "Reverse/Complement twice does not restore the residues"
 	}
 	// (d) extraction symmetry: extract(feature) from reverse-complemented record == from the original
-	f, cnt := findOnce(src.Features(), "h0")
+	f, cnt := findOnce(src.Features(), key)
 	if cnt != 1 {
 		return false, "revcomp-feature", "feature lost by Reverse(Complement())"
 	}
@@ -258,6 +269,54 @@ func c05Eval(c c05Case) (ok bool, sig, detail string) {
 			// so this is never excused by the known finding
 		}
 		return false, s, fmt.Sprintf("feature %s extracts %q from the record but %q (via %s) from the reverse-complemented record", loc, orig, after, printLoc(f.Loc))
+	}
+	return true, "", ""
+}
+
+// c05Residues: residue clauses over real IUPAC letters in both cases.
+func c05Residues(c c05Case, loc gts.Location) (bool, string, string) {
+	res := []byte(c.Res)
+	L := len(res)
+	mk := func() gts.Sequence { return mkSeqKeys(res, []gts.Location{loc}, []string{"h0"}) }
+	var cc, rr, rc gts.Sequence
+	if p, msg := engine.Safely(func() {
+		cc = gts.Complement(gts.Complement(mk()))
+		rr = gts.Reverse(gts.Reverse(mk()))
+		rc = gts.Reverse(gts.Complement(mk()))
+	}); p {
+		return false, "panic", "panic: " + msg
+	}
+	for i, b := range res {
+		want := b
+		if b == 'U' {
+			want = 'T'
+		}
+		if b == 'u' {
+			want = 't'
+		}
+		if cc.Bytes()[i] != want {
+			return false, "residue-involution", fmt.Sprintf("Complement twice maps %q to %q", b, cc.Bytes()[i])
+		}
+		if rr.Bytes()[i] != b {
+			return false, "residue-involution", "Reverse twice changes the residues"
+		}
+		if rc.Bytes()[L-1-i] != refComplement(b, false) {
+			return false, "revcomp-residues", fmt.Sprintf("reverse complement of %q is %q", b, rc.Bytes()[L-1-i])
+		}
+	}
+	f, cnt := findOnce(rc.Features(), "h0")
+	if cnt != 1 {
+		return false, "revcomp-feature", "feature lost"
+	}
+	orig, p1 := locateLabels(loc, res)
+	after, p2 := locateLabels(f.Loc, rc.Bytes())
+	if p1 || p2 {
+		return false, "locate-panic", "Locate panics"
+	}
+	// U is read back as T by the double complement inside the extraction
+	norm := func(s string) string { return strings.NewReplacer("U", "T", "u", "t").Replace(s) }
+	if norm(orig) != norm(after) {
+		return false, "extraction-symmetry", fmt.Sprintf("feature %s extracts %q from the record but %q from the reverse-complemented record", loc, orig, after)
 	}
 	return true, "", ""
 }
@@ -322,6 +381,13 @@ func init() {
 					if !ok {
 						r.Fail(engine.Failure{Sig: sig, Case: c, Detail: detail, Size: len(c.Loc)})
 					}
+					if L <= 3 {
+						c2 := c
+						c2.Key = "source"
+						if ok, sig, detail := c05Eval(c2); !ok {
+							r.Fail(engine.Failure{Sig: sig, Case: c2, Detail: detail, Size: len(c.Loc) + 6})
+						}
+					}
 					if idx%20011 == 0 && r.WantSample() {
 						r.Sample(c)
 					}
@@ -332,6 +398,28 @@ func init() {
 				if !done {
 					complete = false
 					break
+				}
+			}
+			// residue clauses over the IUPAC alphabet in both cases, every range / complement range / 2-part join
+			iu := "ACGTURYKMSWBDHVNacgturykmswbdhvn-*xX"
+			{
+				n := len(iu)
+				for s0 := 0; s0 < n; s0++ {
+					for e0 := s0 + 1; e0 <= n && e0 <= s0+3; e0++ {
+						for _, lc := range []gts.Location{gts.Range(s0, e0), gts.Complemented{Location: gts.Range(s0, e0)},
+							gts.Joined{gts.Range(s0, e0), gts.Point((e0 + 5) % n)}} {
+							if !locdom.IsNormal(lc) {
+								continue
+							}
+							c := c05Case{L: n, Loc: locdom.Encode(lc), Res: iu}
+							r.Evals.Add(1)
+							r.Transitions.Add(5)
+							r.Distinct.Add("iupac|" + c.Loc)
+							if ok, sig, detail := c05Eval(c); !ok {
+								r.Fail(engine.Failure{Sig: sig, Case: c, Detail: detail, Size: len(c.Loc)})
+							}
+						}
+					}
 				}
 			}
 			ar := map[string]int64{}
